@@ -12,13 +12,25 @@
 # See the License for the specific language governing permissions and
 # limitations under the License.
 import ast
-from typing import List, Tuple
+from typing import List, Tuple, get_args
 
 from sympy import Symbol
 from sympy.logic.boolalg import Boolean
 
 from ..types import TType, TypeErrorException
 from . import Binding, Env, decompose_to_symbols, exceptions, translate_expression
+
+
+def _bit_names(ttype: TType, base: str) -> List[str]:
+    """Return the bit names of a value of type ttype, as translate_argument does"""
+    if len(get_args(ttype)) > 0:
+        names: List[str] = []
+        for i, inner in enumerate(get_args(ttype)):
+            names.extend(_bit_names(inner, f"{base}.{i}"))
+        return names
+    elif hasattr(ttype, "BIT_SIZE"):
+        return [f"{base}.{i}" for i in range(ttype.BIT_SIZE)]  # type: ignore
+    return [base]
 
 
 def translate_statement(  # noqa: C901
@@ -81,6 +93,12 @@ def translate_statement(  # noqa: C901
             raise TypeErrorException(texp, ret_type)
 
         res = decompose_to_symbols(vexp, "_ret")
+
+        # A tuple typed variable is a flat list of bits: name them after the type
+        names = _bit_names(texp, "_ret")
+        if len(names) == len(res):
+            res = [(name, x[1]) for name, x in zip(names, res)]
+
         env.bind(Binding("_ret", texp, [x[0] for x in res]))
         res = list(map(lambda x: (Symbol(x[0]), x[1]), res))
         return res, env
